@@ -122,7 +122,11 @@ func mutate(r *rng, s string, ver int) string {
 		return s
 	}
 	i := r.intn(len(parts))
-	switch r.intn(19) {
+	which := r.intn(20)
+	if which == 19 {
+		which = 16
+	}
+	switch which {
 	case 18: // split ambiguity: "A:VL" reads like "AV" + "L"
 		if k := strings.IndexByte(parts[i], ':'); k > 0 {
 			sp := specs[ver]
@@ -170,6 +174,9 @@ func mutate(r *rng, s string, ver int) string {
 		if k := strings.IndexByte(parts[i], ':'); k > 0 {
 			if m := specs[ver].metric(parts[i][:k]); m != nil {
 				dup := parts[i][:k+1] + r.pick(m.Values)
+				for tries := 0; tries < 4 && dup == parts[i]; tries++ {
+					dup = parts[i][:k+1] + r.pick(m.Values) // another value, if there is one
+				}
 				j := r.intn(len(parts) + 1)
 				if r.chance(0.5) {
 					j = i + 1 // right behind the first one
@@ -181,8 +188,12 @@ func mutate(r *rng, s string, ver int) string {
 		for k := 10 + r.intn(50); k > 0; k-- {
 			parts = append(parts, parts[r.intn(len(parts))])
 		}
-	case 15: // one very long element
-		parts[i] = parts[i] + strings.Repeat(r.pick([]string{"A", "/", ":", "N/", "\xff", "X:"}), 20+r.intn(200))
+	case 15: // one very long element; now and then a huge one (size limits: 4 KiB, 64 KiB)
+		n := 20 + r.intn(200)
+		if r.chance(0.25) {
+			n = []int{2100, 4200, 9000, 70000}[r.intn(4)]
+		}
+		parts[i] = parts[i] + strings.Repeat(r.pick([]string{"A", "/", ":", "N/", "\xff", "X:"}), n)
 	case 0: // drop a part
 		parts = append(parts[:i:i], parts[i+1:]...)
 	case 1: // duplicate a part
@@ -290,7 +301,16 @@ func init() {
 var oddBytes = []string{"\x00", "\x01", " ", "\xff", "\t", "\n", ":", "/", "A", "x", "\x7f", "\u00a0"}
 
 func nearMiss(r *rng, s string) string {
-	switch r.intn(17) {
+	switch r.intn(18) {
+	case 17: // a name from a fixed-width buffer: padded to 3 or 4 bytes with NULs or spaces
+		pad := r.pick([]string{"\x00", " "})
+		if w := 3 + r.intn(2); len(s) < w {
+			if r.chance(0.4) {
+				return strings.Repeat(pad, w-len(s)) + s // right-aligned
+			}
+			return s + strings.Repeat(pad, w-len(s))
+		}
+		return s + pad
 	case 16: // a proper prefix
 		if len(s) > 1 {
 			return s[:1+r.intn(len(s)-1)]
@@ -383,11 +403,29 @@ func glue(r *rng, xs []string) string {
 	return out
 }
 
+// valueWords: the value NAMES of the specifications, as the JSON schemas of the
+// three standards spell them (a caller that holds the JSON form may pass them).
+var valueWords = []string{"NETWORK", "ADJACENT_NETWORK", "ADJACENT", "LOCAL", "PHYSICAL", "LOW", "MEDIUM", "HIGH", "NONE", "SINGLE", "MULTIPLE",
+	"PARTIAL", "COMPLETE", "REQUIRED", "UNCHANGED", "CHANGED", "UNPROVEN", "PROOF_OF_CONCEPT", "FUNCTIONAL", "NOT_DEFINED", "OFFICIAL_FIX",
+	"TEMPORARY_FIX", "WORKAROUND", "UNAVAILABLE", "UNCONFIRMED", "UNCORROBORATED", "CONFIRMED", "UNKNOWN", "REASONABLE", "LOW_MEDIUM", "MEDIUM_HIGH",
+	"ATTACKED", "POC", "UNREPORTED", "PRESENT", "ACTIVE", "PASSIVE", "NEGLIGIBLE", "SAFETY", "YES", "NO", "DIFFUSE", "CONCENTRATED", "AUTOMATIC", "USER",
+	"IRRECOVERABLE", "CLEAR", "GREEN", "AMBER", "RED", "CRITICAL"}
+
 func genValue(r *rng, ver int, abv string, adversarial float64) string {
 	sp := specs[ver]
 	m := sp.metric(abv)
 	if m != nil && !r.chance(adversarial) {
 		return r.pick(m.Values)
+	}
+	if r.chance(0.08) {
+		w := r.pick(valueWords)
+		switch r.intn(3) {
+		case 0:
+			return strings.ToLower(w)
+		case 1:
+			return w[:1] + strings.ToLower(w[1:])
+		}
+		return w
 	}
 	if m != nil && r.chance(0.15) {
 		// split ambiguity: metric + value reads like a LONGER metric and one of
@@ -855,6 +893,7 @@ func genPlanOpt(seed uint64, prop string, cold bool) *Plan {
 		p.PoolDec = append(p.PoolDec, d)
 	}
 	p.Slab = r.chance(0.35) || neigh
+	p.ArgOffset = r.chance(0.12) // arguments start at every offset of a machine word
 	// collector faults: mostly in short-lived processes (in a long-lived worker a
 	// collection costs as much as ten runs, the process-wide oracle tables have
 	// to be marked, and the heap layout depends on thousands of earlier runs)
